@@ -434,8 +434,11 @@ func cmdOracle(args []string) {
 		o := callFresh(t.Text, doc, t.OneShot)
 		var got string
 		if t.Mode != nil {
-			c := &c15cmp{mode: t.Mode, exact: t.Exact, errAny: t.ErrAny}
+			c := &c15cmp{mode: t.Mode, exact: t.Exact, errAny: t.ErrAny, panicAny: t.PanicAny}
 			got = c.key(o)
+			if c15match(got, t.Key) {
+				got = t.Key
+			}
 		} else {
 			got = o.Key()
 		}
